@@ -214,7 +214,7 @@ prop("C17",
 
 
 prop("C16",
-     units=["movearms", "cutcf", "refshift", "separators", "errprint", "parensmoved"],
+     units=["movearms", "cutcf", "refshift", "separators", "errprint", "parensmoved", "fncall", "arrayprint"],
      level="proof",
      claim="the moved formula keeps its structure: every operator arm of to_string_moved wraps an operand whose operator binds looser than the grammar level the parser "
            "reads it at (unit parensmoved; one listed known finding: a+(b+c) is printed a+b+c); it is printed with the separators (arguments, LAMBDA parameters, array rows and elements) and the error names that the parser of the active "
@@ -225,7 +225,7 @@ prop("C16",
      assumptions=["stringify_reference prints a function of its arguments (its own contract is unit refshift); parser.parse / to_localized_string are stubs whose only "
                   "contracted aspect is the cell context they are given", "coordinates within +-2^22"],
      residual="pasted contents/styles/links/values (clipboard.rs), external references into the cut area (get_external_formula_updates_for_cut string rewriting), "
-              "the other non-reference arms of to_string_moved (operators, strings, numbers, booleans), the use of the chosen separator inside move_function's format! loop")
+              "the leaf arms of to_string_moved (strings, numbers, booleans)")
 
 
 prop("C31",
@@ -279,7 +279,7 @@ prop("C32",
 
 
 prop("C10",
-     units=["langframe", "lexerr", "fntables", "separators", "errprint"],
+     units=["langframe", "lexerr", "fntables", "separators", "errprint", "fncall", "arrayprint"],
      level="proof",
      claim="slices. Separators: at every site where the display printer (stringify) or the cut-and-paste printer (to_string_moved) chooses an argument / LAMBDA / array-element "
            "/ array-row separator, the chosen character is lexed by the real single-character arms of Lexer::next_token, in the same locale, as exactly the token "
@@ -296,13 +296,15 @@ prop("C10",
 
 
 prop("C09",
-     units=["parens", "parensmoved", "parselevels", "separators", "errprint"],
+     units=["parens", "parensmoved", "parselevels", "separators", "errprint", "fncall", "arrayprint"],
      level="proof",
      claim="slice (the printer's side of the round trip, arm by arm, verbatim code): for every operator node — comparison, &, + -, * /, ^, unary minus, %, range ':', '@', '#' — the arm "
            "of stringify (display form in every language/locale, stored R1C1 form, xlsx form) and of to_string_moved (cut and paste) prints an operand in parentheses whenever "
            "the operand's outermost operator binds looser than the grammar level at which the parser reads an operand in that position (precedence(node) is proved equal to the "
            "level table; stringify_operand / to_string_moved_operand wrap exactly when precedence < level), so the text parses back to the same tree at that node; the separators "
-           "between arguments / array rows / array elements are lexed as the tokens the parser expects (separators) and error literals are printed in the language given (errprint). "
+           "between arguments / array rows / array elements are lexed as the tokens the parser expects (separators) and error literals are printed in the language given (errprint); "
+           "a function call is printed name(arg1 SEP arg2 ..) with every argument in order and the locale's separator between any two (fncall: format_function and move_function whole), "
+           "an array literal row by row, element by element, with exactly the element / row separators and one pair of braces (arrayprint: both ArrayKind arms). "
            "One listed known finding: a+(b+c) is printed a+b+c (required by the suite's test correct_parenthesis; =1E16+(-1E16+1) is 0 when typed, 1 after print and re-read)",
      assumptions=["the grammar levels (1 comparison .. 9 primary): unit parselevels proves, on the eight real functions parse_expr .. parse_implicit, which operator each level "
                   "consumes and which level's function reads each operand (right operands and the leftmost operand from the level above; '-' then a range-level operand then '%'s; "
